@@ -126,6 +126,7 @@ Proof.
   unfold raw_set_attribute. intros H.
   wnode H n Hn. wval H sp Hsp.
   destruct sp as [[[[? ?] ?] ?]|]; [|winv H; apply SV_refl].
+  match type of H with (if ?b then _ else _) _ = _ => destruct b end; [winv H; apply SV_refl|].
   wval H ok Hok. destruct ok; [|winv H; apply SV_refl].
   apply set_node_inv in H as (_ & ->). eapply sv_set_node; eauto.
 Qed.
@@ -133,11 +134,8 @@ Qed.
 Lemma e_set_attribute_sv h attr v w r w' :
   e_set_attribute T check_fn LATEST h attr v w = Val (r, w') -> SV w w'.
 Proof.
-  unfold e_set_attribute, raw_set_attribute. intros H.
-  wstep H; [|apply SV_refl]. wstep H; [|winv E0]. winv E0. wstep H; [|winv E0]. winv E0.
-  destruct v0 as [[[[? ?] ?] ?]|]; [|winv H; apply SV_refl].
-  wstep H; [|winv E0]. winv E0. destruct v0; [|winv H; apply SV_refl].
-  apply set_node_inv in H as (_ & ->). eapply sv_set_node; eauto.
+  unfold e_set_attribute. intros H.
+  wbind_ro H ver Ever; [|apply SV_refl]. eapply raw_set_attribute_sv; eauto.
 Qed.
 
 Lemma e_remove_attribute_sv h attr w r w' :
